@@ -44,6 +44,39 @@ func (s *splitSrc) Read(p []byte) (int, error) {
 	return n, nil
 }
 
+// boundarySrc delivers the messages one per Read (cut further only by len(p)), with `idle` zero-length reads (0, nil) in front
+// of the first byte of every message and in front of the final io.EOF: a transport that is idle BETWEEN messages for as long as
+// it likes, which is where a persistent connection spends its time
+type boundarySrc struct {
+	data   []byte
+	bounds map[int]bool // offsets at which a message starts (and len(data))
+	idle   int
+	pos    int
+	waited int
+	pulled int
+}
+
+func (s *boundarySrc) Read(p []byte) (int, error) {
+	if s.bounds[s.pos] && s.waited < s.idle {
+		s.waited++
+		return 0, nil
+	}
+	if s.pos >= len(s.data) {
+		return 0, io.EOF
+	}
+	end := s.pos + 1
+	for end < len(s.data) && !s.bounds[end] {
+		end++
+	}
+	n := copy(p, s.data[s.pos:end])
+	s.pos += n
+	s.pulled += n
+	if n > 0 {
+		s.waited = 0
+	}
+	return n, nil
+}
+
 type splitScan struct{ *splitSrc }
 
 func (s splitScan) ReadByte() (byte, error) {
@@ -115,7 +148,7 @@ func runC06(r *Result, d *drv.Driver, tier string, seed int64, replay string) {
 		nSeq = 600
 	}
 	r.Rule = "sequences of 1..6 valid messages (requests and responses mixed, small and large) written back to back; the concatenation is decoded by successive Decode calls on ONE Decoder, followed by one more call that must report io.EOF: " +
-		"exhaustively for every two-way split offset, and one byte at a time, in random chunks with zero-length reads, and with the last data returned together with EOF (random chunk sizes, and every read request satisfied in full); every fifth stream ends with a message whose last item is an unpadded 24..64-byte string, another fifth with a message carrying a vendor extension (an item only a skip field claims) of 5..300 bytes; through a buffered source (plain io.Reader) and an unbuffered one (io.ByteScanner, where the exact bytes consumed per message are compared). " +
+		"exhaustively for every two-way split offset, and one byte at a time, in random chunks with zero-length reads, and with the last data returned together with EOF (random chunk sizes, and every read request satisfied in full), and message by message with 1, 99, 100, 150 and 1000 zero-length reads in front of every message and of the final EOF; every fifth stream ends with a message whose last item is an unpadded 24..64-byte string, another fifth with a message carrying a vendor extension (an item only a skip field claims) of 5..300 bytes; through a buffered source (plain io.Reader) and an unbuffered one (io.ByteScanner, where the exact bytes consumed per message are compared). " +
 		"The transport model of Io.lean (ReadFull loop, LimitReader over chunked sources, about which the chunk-independence theorems are stated) is itself compared with Go's io.ReadFull / io.LimitReader on random chunkings; the full reader-stack model of IoStack.lean (bufio.Reader of several sizes over io.LimitReader over bufio … pushed and popped like nested decoders; ReadFull, ReadByte, CopyN into Discard, bare Read, read-to-the-end; runs of up to 102 empty reads) is compared with Go's bufio / io step by step; the decoder over that stack (DecodeStack.lean, the subject of C06_decode_over_any_chunking) is compared with the real Decode on valid and mutated messages cut into random chunks (value, outcome class, bytes fetched from the transport incl. read-ahead). Compared with the model's stream decoder and with the values originally encoded. distinct = distinct (sequence, delivery); non-trivial = more than one message"
 	ioCorrespondence(r, d, seed, nSeq*50)
 	ioStackCorrespondence(r, d, seed, nSeq*50)
@@ -260,6 +293,21 @@ func runC06(r *Result, d *drv.Driver, tier string, seed int64, replay string) {
 			s2 := &splitSrc{data: data, cut: cut}
 			check(fmt.Sprintf("split-unbuffered@%d", cut), streamDecode(kmip.NewDecoder(splitScan{s2}), ttypes, func() int { return s2.pulled }, true), true)
 			r.Stats["delivery:split"] += 2
+		}
+		// zero-length reads between messages: any number of them (the tag of the next message is read with io.ReadFull, which
+		// waits through them; nothing in front of a message may give up on an idle transport)
+		for _, idle := range []int{1, 99, 100, 150, 1000} {
+			bs := &boundarySrc{data: data, bounds: map[int]bool{}, idle: idle}
+			off := 0
+			bs.bounds[0] = true
+			for _, w := range want {
+				var l int
+				fmt.Sscanf(w, "%d", &l)
+				off += l
+				bs.bounds[off] = true
+			}
+			check(fmt.Sprintf("idle-between-messages@%d-zero-length-reads", idle), streamDecode(kmip.NewDecoder(bs), ttypes, func() int { return bs.pulled }, false), false)
+			r.Stats["delivery:idle-between-messages"]++
 		}
 		for _, mode := range []string{"onebyte", "chunks", "dataeof", "dataeof-full"} {
 			for _, unb := range []bool{false, true} {
